@@ -98,10 +98,16 @@ def log(msg):
 
 # ----------------------------------------------------------------------------------------------
 # Coq side
-def gen_constants():
+def gen_constants(prop=None):
+    """run the translator; returns an error text when the main file, or the extra generator of this property
+    (tools/gen_extra_<prop>.py), no longer matches the source"""
     rc, out = sh([sys.executable, os.path.join(VERIF, "tools", "gen_constants.py")], cwd=VERIF)
     if rc != 0:
         return out.strip()
+    if prop:
+        for line in out.split("\n"):
+            if line.lower().startswith("gen-error %s:" % prop.lower()):
+                return line
     return None
 
 
